@@ -107,7 +107,7 @@ class Interval(Module):
         Returns:
             Interval: intersection if this interval with the other one.
         """
-        if self.transform != other.transform:
+        if self._transform != other._transform:
             raise RuntimeError("Cant intersect Interval constraints with conflicting transforms!")
 
         lower_bound = torch.max(self.lower_bound, other.lower_bound)
